@@ -67,6 +67,9 @@ def mk_contract(r):
         form, seat = c.split('+')
         return Contract(final_bid=None if form == 'None' else Bid['Pass'], vul=be.VUL[r['vul']], declarer=be.SEAT[A.SEATS.index(seat)]), None
     bid, dbl, decl, tricks = c
+    if dbl == 2 and (bid + decl) % 2:
+        # the other encoding of a redoubled contract: xx without x
+        return Contract(final_bid=be.BID[bid], x=False, xx=True, vul=be.VUL[r['vul']], declarer=be.SEAT[decl]), tricks
     return be.contract_of(bid, dbl, r['vul'], decl), tricks
 
 
